@@ -14,6 +14,11 @@
 //	period     a peek, then exactly 2^16-1, 2^16, 2^17, 2^18, 2^20 reads (or peeks, or write+read pairs)
 //	           without a peek in between, then the peek again; state carried across Reset
 //	unaligned  buffers built over spare capacity that starts at an odd address
+//
+// Second round (third red-team wave, body-only changes keyed on what the generators did not vary): legs2.go —
+// wordvals (machine-word extremes as values), ctors (every way to come by an empty Buffer), fleet (process-lifetime
+// history: 2^30 .. 2^32 bytes through abandoned / re-used buffers, 2^20 .. 2^24 instances, a fresh buffer probed at every
+// power of two). All in the normal tiers. By-value Buffer copies and UnreadByte were judged OUTSIDE the quantifier.
 package main
 
 import (
